@@ -17,6 +17,7 @@ from ..core import choice, draw_cfg
 from ..problems import FAMILIES, build_problem, draw_problem_spec
 from ..sched import Sched
 from ..world import Act, Store, World
+from . import c13
 
 ID = "C14"
 LEVEL = "exploration"
@@ -62,7 +63,20 @@ def _act_spec(rng):
     restart = int(rng.integers(1, 4)) if rng.random() < 0.4 else 0
     if restart and rng.random() < 0.7:
         cfg.pop("scaler", None)
-    return {"problem": spec, "cfg": cfg, "restart_at": restart}
+    out = {"problem": spec, "cfg": cfg, "restart_at": restart}
+    if rng.random() < 0.25:
+        # an update function that rewrites the gradient history (exercises the filter and its log lines)
+        cfg.pop("scaler", None)
+        cfg["update"] = {"mode": "arbitrary"}
+        cfg["callback"] = {}
+        out["switch"] = {
+            "mode": "arbitrary",
+            "at": int(rng.integers(2, 6)),
+            "seed": int(rng.integers(0, 2**31 - 1)),
+            "frac": float(rng.uniform(0.3, 0.9)),
+            "touch_newest": False,
+        }
+    return out
 
 
 def gen(rng, tier, index):
@@ -90,7 +104,7 @@ def _prepare(spec):
         if P.result is not None:
             blob = Store.dumps(P.result)
             cfg["maxiter"] = int(P.result.nit) + int(cfg["maxiter"])
-    return problem, cfg, blob
+    return problem, cfg, blob, spec.get("switch")
 
 
 def _dg(a):
@@ -109,10 +123,12 @@ def execute(plan):
     prepared = [_prepare(s) for s in plan["acts"]]
 
     def mk(i, **kw):
-        problem, cfg, blob = prepared[i]
+        problem, cfg, blob, sw = prepared[i]
         ck = None if blob is None else Store.loads(blob, frozen=True)
         cfg = dict(cfg)
         cfg.update(kw.pop("cfg_update", {}))
+        if sw is not None and "world" not in kw:
+            kw["world"] = World(rewriter=c13.make_rewriter(problem, sw, {"fired": False}))
         return Act(problem, cfg, checkpoint=ck, aid=i, freeze_inputs=True, **kw)
 
     def check_inputs(a, tag):
@@ -182,8 +198,8 @@ def execute(plan):
     if nfun >= 1:
         j = int(rng.integers(1, nfun + 1))
         W = World()
-        _, cfg1, blob1 = prepared[1]
-        if blob1 is None:
+        _, cfg1, blob1, sw1 = prepared[1]
+        if blob1 is None and sw1 is None and prepared[0][3] is None:
             sub = {"problem": plan["acts"][1]["problem"], "cfg": cfg1}
             outer = mk(0, faults=[{"kind": "nest", "actor": "fun", "at": j, "plan": sub}], world=W).run()
             stats["activations"] += 2
@@ -214,8 +230,8 @@ def execute(plan):
         keys.add("aftercrash|%s|%s" % (prepared[0][1]["jac"], bool(cr.fired["crash_in_ls"])))
 
     # ---- restarting twice from the same checkpoint object
-    for i, (problem, cfg, blob) in enumerate(prepared):
-        if blob is None:
+    for i, (problem, cfg, blob, _sw) in enumerate(prepared):
+        if blob is None or _sw is not None:
             continue
         ck = Store.loads(blob, frozen=True)
         r1 = Act(problem, cfg, checkpoint=ck, freeze_inputs=True).run()
